@@ -155,11 +155,18 @@ func forEachCase(c *core.Ctx, gen string, f func(cas int, src source, fresh func
 			only[tn] = true
 		}
 	}
+	// directed effort may be given a wall-clock budget per type (args budget_ms=n): slow calls
+	// (a dequeue that waits a millisecond on an empty queue) then simply get fewer histories
+	budget, _ := strconv.Atoi(c.Args["budget_ms"])
 	for si, src := range srcs {
 		if len(only) > 0 && !only[src.Type] {
 			continue
 		}
+		began := time.Now()
 		for n := 0; n < cases(c, gen); n++ {
+			if budget > 0 && c.OnlyCase < 0 && time.Since(began) > time.Duration(budget)*time.Millisecond {
+				break
+			}
 			cas := si*caseStride + n
 			if !c.Want(gen, cas) {
 				continue
@@ -260,7 +267,10 @@ func runLin(c *core.Ctx) error {
 		// judges them all
 		rounds := 1
 		if c.OnlyGen == gen && c.OnlyCase >= 0 {
-			rounds = 60
+			rounds = 24000 / (prog.calls() + 10) // 400 executions of a short program, 100 of a long one
+			if rounds > 400 {
+				rounds = 400
+			}
 		}
 		var log []core.Ev
 		for round := 0; round < rounds; round++ {
